@@ -314,8 +314,16 @@ func TestVerifC11(t *testing.T) {
 				g1 := c11Entity(mk(ks.base))
 				g1.InitWithRecovery(nil)
 				p1 := g1.Instance().(*pipeline.Pipeline)
+				var lastRes string
+				var lastStatus int
 				doReq := func(p *pipeline.Pipeline, who string) {
 					ctx, _ := c11Ctx()
+					defer func() {
+						lastStatus = 0
+						if r := ctx.GetOutputResponse(); r != nil {
+							lastStatus = r.(*httpprot.Response).StatusCode()
+						}
+					}()
 					func() {
 						defer func() {
 							if r := recover(); r != nil {
@@ -323,6 +331,7 @@ func TestVerifC11(t *testing.T) {
 							}
 						}()
 						res := p.Handle(ctx)
+						lastRes = res
 						ok := res == ""
 						for _, r := range filters.GetKind(ks.kind).Results {
 							ok = ok || r == res
@@ -345,7 +354,12 @@ func TestVerifC11(t *testing.T) {
 					g2.Instance().(*pipeline.Pipeline).Inherit(g2.Spec(), p1, nil)
 				}()
 				p2 := g2.Instance().(*pipeline.Pipeline)
+				beforeRes, beforeStatus := lastRes, lastStatus
 				doReq(p1, "old") // the in-flight request that still holds the old generation
+				if nreq > 0 && ks.kind != "RateLimiter" && (lastRes != beforeRes || lastStatus != beforeStatus) {
+					// (a RateLimiter answers differently once its permits are used up: not comparable)
+					c.Failf("old-generation-answers-differently-after-the-update:"+ks.kind, "%s: before the update the generation answered result %q status %d, a request that still holds it after the update gets result %q status %d", ks.kind, beforeRes, beforeStatus, lastRes, lastStatus)
+				}
 				doReq(p2, "new")
 				doReq(p1, "old")
 				c.Outcome(fmt.Sprintf("%s-change%v", ks.kind, change))
